@@ -81,6 +81,11 @@ theorem spec_client_covered_after_repair (h : Limits.specConfigCoversAdvertised 
   rw [h, if_pos rfl]
   exact cover_config_covers _ _ hidle
 
+/-- e.g. the Chrome 115 list against the default Config, recomputed -/
+example : LimitsCovered (advertised (populate Limits.specParams_QUICChrome_115_IPv4))
+    (enforced (coverConfig (populateConfig {}) (populate Limits.specParams_QUICChrome_115_IPv4))
+      (populate Limits.specParams_QUICChrome_115_IPv4).activeConnectionIDLimit) := by decide
+
 /-- the repair function itself covers, whatever the shape fact says -/
 theorem cover_config_no_error (c : Config) (p : OwnParams) (hidle : 0 < p.maxIdleTimeout)
     (evs : List PeerEvent) (hw : ∀ ev ∈ evs, ev.within (advertised p)) :
@@ -148,6 +153,9 @@ theorem idle_timeout_respects_advertised (advIdle cfgIdle : Int) (hcfg : 0 < cfg
       show advIdle ≤ max cfgIdle pto3
       omega
 
+/-- both sides of the equivalence are inhabited: Config 30 s covers an advertised 30 s, Config 10 s does not -/
+example : (0 < (30000 : Int) ∧ (30000 : Int) ≤ 30000) ∧ ¬ (0 < (30000 : Int) ∧ (30000 : Int) ≤ 10000) := by decide
+
 /-- witness (CONFIRMED, corpus user-config-below-spec.ops): Chrome 146 advertises 30 s; with
     Config.MaxIdleTimeout = 10 s the client gives up after 10 s although the peer may count on 30 s -/
 theorem idle_timeout_witness :
@@ -168,6 +176,11 @@ def record_equals_bytes_full : Prop :=
 theorem record_equals_bytes (ps : List (Nat × Nat)) (hwf : WellFormed ps) :
     recordOfBytesWith Limits.populateRecognises (marshal ps) = some (populate (toInts ps)) :=
   record_of_marshal Limits.populateRecognises ps hwf
+
+/-- a non-trivial well-formed list (Chrome's values, all four varint lengths) and its bytes -/
+example : WellFormed [(4, 15728640), (1, 30000), (3, 1472), (8, 100), (32, 65536), (7, 4611686018427387903)] := by decide
+example : marshal [(1, 30000), (8, 100)] = [1, 4, 128, 0, 117, 48, 8, 2, 64, 100] := by decide
+example : parseInts [1, 4, 128, 0, 117, 48, 8, 2, 64, 100] = some [(1, 30000), (8, 100)] := by decide
 
 /-- … and it is the FULL reading of the bytes for every list that only uses recognised parameter ids -/
 theorem record_equals_bytes_when_recognised (ps : List (Nat × Nat)) (hwf : WellFormed ps)
